@@ -80,6 +80,15 @@ def h_overwrite(eng, tier, lang, sym_draws):
         eng.notes['sample'] = case
         return obs
     eng.event('injected')
+    if text0 is not None:
+        with FixedRandom():
+            try:
+                text1 = F.translate(lang, P.clone(r))
+            except Exception:       # noqa
+                text1 = None
+        if text1 is not None and lang in ('kotlin', 'scala'):
+            # kotlin and scala print every declared type: the injected error must show in the text the compiler sees
+            obs.append(Ob('injected-error-visible-in-translation|%s' % lang, text1 != text0, case))
     by = types_changed(diff)
     case['changed_nodes'] = list(by)[:4]
     # ---- exactly one declared type changed
@@ -129,6 +138,14 @@ def h_overwrite(eng, tier, lang, sym_draws):
         ia = [i for i, (x, y) in enumerate(zip(a[1][2], b[1][2])) if x != y] if a[1][0] == 'P' and b[1][0] == 'P' else []
         obs.append(Ob('one-type-argument-changed', len(ia) == 1 and a[1][1] == b[1][1], dict(case, before=str(a)[:200], after=str(b)[:200])))
         eng.event('type-argument-overwritten')
+        # the message names the argument that was actually replaced
+        olds, news = _type_args_at(p0, node_path), _type_args_at(r, node_path)
+        if len(ia) == 1 and olds is not None and news is not None and len(olds) == len(news):
+            msg = t.error_injected or ''
+            i = ia[0]
+            obs.append(Ob('message-names-replaced-type-argument',
+                          msg.startswith(str(olds[i]) + ' expected but ' + str(news[i]) + ' found'),
+                          dict(case, replaced=str(olds[i]), by=str(news[i]))))
     if target is not None:
         ns, d, o, old_t, new_t = target
         w = World()
@@ -140,6 +157,9 @@ def h_overwrite(eng, tier, lang, sym_draws):
                       not w.sub(ot, nt) and not w.sub(nt, ot), case))
         msg = t.error_injected or ''
         obs.append(Ob('message-names-old-new-node', str(old_t) in msg and str(new_t) in msg and d.name in msg, case))
+        obs.append(Ob('recorded-type-follows-declared-type|%s' % kind,
+                      P.type_repr(d.get_type()) == P.type_repr(new_t) and P.type_repr(d.inferred_type) == P.type_repr(new_t),
+                      dict(case, recorded=str(d.inferred_type))))
         # ---- a correct type checker must reject
         typer = Typer(r)
         if kind == 'variable':
@@ -157,6 +177,23 @@ def h_overwrite(eng, tier, lang, sym_draws):
     eng.notes['sample'] = case
     eng.notes['observe'] = str(t.error_injected)
     return obs
+
+
+def _type_args_at(p, path):
+    """type arguments of the instantiation node found at an irdiff path"""
+    parts = path.split('/')
+    nodes = {('%s:%s' % (type(d).__name__, getattr(d, 'name', ''))): d for d in P.top_decls(p)}
+    cur = nodes.get(parts[0])
+    for part in parts[1:]:
+        if cur is None:
+            return None
+        try:
+            idx = int(part[part.index('[') + 1:part.index(']')])
+            cur = list(cur.children())[idx]
+        except (ValueError, IndexError):
+            return None
+    t_ = getattr(cur, 'class_type', None)
+    return list(t_.type_args) if isinstance(t_, tp.ParameterizedType) else None
 
 
 def _aliased_input(p0):
@@ -182,7 +219,7 @@ OUT = ('programs outside the families; random draws after the first N of transfo
 
 def jobs(tier):
     out = []
-    langs = ['java'] if tier == 'quick' else F.LANGS        # the mutation barely depends on the language
+    langs = ['kotlin'] if tier == 'quick' else F.LANGS      # the mutation barely depends on the language
     nd = 2 if tier == 'quick' else 3
     for lang in langs:
         out.append(Job('overwrite-%s' % lang, h_overwrite, dict(tier=tier, lang=lang, sym_draws=nd), split_depth=3,
